@@ -279,19 +279,41 @@ def check_memo_soundness(repo, chk, rule="M-sound"):
 
     chk.rule(rule, "memoisation is sound: a function under an argument-blind memoiser (simple_cache_fun) has no parameter besides self, and no memoised function (lru_cache / simple_cache_fun) reads a model state cell (parameter values, masks, chain selection, config) - its first result would be served after the state has changed")
     eff = Effects(repo, Resolver(repo))
+    # is the project's own memoiser still argument-blind?  (its slot is named after the function only: the name handed
+    # to hasattr / setattr / getattr is computed outside the wrapper)  If it ever keys the slot by the arguments the
+    # "no parameter besides self" demand no longer applies.
+    blind_decos = set()
+    for d in BLIND_DECOS:
+        defs = [f for f in _all_functions(repo) if f.name == d and f.parent is None]
+        if not defs:
+            raise AnalysisError("%s: memoiser %s vanished" % (rule, d))
+        for df in defs:
+            inner = [x for x in ast.walk(df.node) if isinstance(x, ast.FunctionDef) and x is not df.node]
+            slot_names = set()
+            for w in inner:
+                for c in ast.walk(w):
+                    if isinstance(c, ast.Call) and isinstance(c.func, ast.Name) and c.func.id in ("setattr", "hasattr", "getattr") and len(c.args) >= 2:
+                        slot_names.add(norm_text(c.args[1]))
+            wrapper_locals = {a.arg for w in inner for a in w.args.args + w.args.kwonlyargs + ([w.args.vararg] if w.args.vararg else []) + ([w.args.kwarg] if w.args.kwarg else [])}
+            wrapper_locals |= {t.id for w in inner for st in ast.walk(w) if isinstance(st, ast.Assign) for t in st.targets if isinstance(t, ast.Name)}
+            if not slot_names:
+                raise AnalysisError("%s: cannot tell how %s names its cache slot" % (rule, d))
+            if all(isinstance(ast.parse(t, mode="eval").body, (ast.Name, ast.Constant)) and t not in wrapper_locals for t in slot_names):
+                blind_decos.add(d)
+            chk.instance(rule, "memoiser %s keeps one slot per object (slot name %s computed outside the wrapper): %s" % (d, sorted(slot_names), d in blind_decos))
     n = 0
     for f in _all_functions(repo):
         if not is_memoised(f):
             continue
         n += 1
         decos = [norm_text(d.func if isinstance(d, ast.Call) else d).split(".")[-1] for d in f.node.decorator_list]
-        blind = any(d in BLIND_DECOS for d in decos)
+        blind = any(d in blind_decos for d in decos)
         extra = [p for p in f.params if p not in ("self", "cls")]
         reads = sorted(set(eff.readers.get(f, ())) & set(STATE_CELLS))
         ok = not (blind and extra) and not reads
         chk.oblige(rule, "%s [%s]: parameters %s, state cells read: %s" % (f.key, ",".join(d for d in decos if d in MEMO_DECOS), extra or "-", reads or "none"), ok)
         if blind and extra:
-            chk.violation(rule, f.key, "blind-args", "memoised by the argument-blind %s but takes the arguments %s: every later call gets the result of the first one whatever it passes" % ([d for d in decos if d in BLIND_DECOS][0], extra), file=f.mod.rel, line=f.lineno)
+            chk.violation(rule, f.key, "blind-args", "memoised by the argument-blind %s but takes the arguments %s: every later call gets the result of the first one whatever it passes" % ([d for d in decos if d in blind_decos][0], extra), file=f.mod.rel, line=f.lineno)
         if reads:
             chk.violation(rule, f.key, "reads:" + ",".join(reads), "memoised function depends on the model state cell(s) %s: after the state changes (e.g. set_params in a fit) the stale first result is still returned" % reads, file=f.mod.rel, line=f.lineno)
     if n < 20:
